@@ -154,4 +154,199 @@ Section Framing.
       apply sdf_iter_file; try assumption. unfold sdf_file. cbn [map concat app length]. lia.
     - apply sdf_iter_file; try assumption. unfold sdf_file. rewrite app_length. cbn [length] in *. lia.
   Qed.
+
+  (* the readable consequence: when every record either parses or fails with a ValueError (what MDLRead.__iter__ skips),
+     the reader yields exactly the parsable records, in order, and ends normally *)
+  Definition skippable (r : record_result) : Prop :=
+    match r with inl _ => True | inr (Py e) => is_value_error e = true | inr _ => False end.
+  Definition successes (rs : list record_result) : list (A * list (str * str)) :=
+    flat_map (fun r => match r with inl x => [x] | inr _ => [] end) rs.
+  Lemma collect_skippable rs : Forall skippable rs -> collect rs = (successes rs, Exhausted).
+  Proof.
+    induction 1 as [|r rs Hr _ IH]; [reflexivity|]. destruct r as [x|[e| |]]; cbn [collect successes flat_map app] in *.
+    - rewrite IH. reflexivity.
+    - rewrite Hr. exact IH.
+    - contradiction.
+    - contradiction.
+  Qed.
+  Corollary sdf_damaged_records_skipped recs last :
+    Forall (fun rd => sdf_record_ok (fst rd) /\ fst rd <> [] /\ is_delim (snd rd) = true) recs -> sdf_record_ok last ->
+    Forall skippable (map sdf_one (map fst recs)) -> last = [] \/ skippable (sdf_one last) ->
+    sdf_read A build_mol buffer_size (sdf_file recs last) = (successes (map sdf_one (map fst recs ++ [last])), Exhausted).
+  Proof.
+    intros H1 H2 H3 H4. rewrite sdf_framing by assumption.
+    destruct H4 as [-> | H4].
+    - rewrite map_app. cbn [map sdf_one]. unfold successes. rewrite flat_map_app. cbn [flat_map app]. rewrite app_nil_r.
+      fold (successes (map sdf_one (map fst recs))). rewrite <- collect_skippable by exact H3.
+      clear. induction (map sdf_one (map fst recs)) as [|r rs IH]; [reflexivity|].
+      destruct r as [x|[e| |]]; cbn [app collect]; try reflexivity; [rewrite IH; reflexivity | destruct (is_value_error e); [exact IH | reflexivity]].
+    - apply collect_skippable. rewrite map_app. apply Forall_app. split; [exact H3 | repeat constructor; exact H4].
+  Qed.
+
+  (* ---------------------------------------------------------------------------------------------- *)
+  (** ** RDF *)
+
+  Definition is_dtype (l : str) : bool := startswith (L "$DTYPE") l.
+  (* __m_start after the block was read: the buffer position of the first "$DTYPE" line seen while m_start was falsy *)
+  Fixpoint mscan (body : list str) (k : nat) (m : option nat) : option nat :=
+    match body with
+    | [] => m
+    | l :: r => mscan r (S k) (if falsy m && is_dtype l then Some k else m)
+    end.
+
+  Definition rdf_one (body : list str) : record_result :=
+    match body with
+    | [] => inr EOFError
+    | _ => let m := mscan body 0 None in
+           let meta := rdf_read_metadata (if falsy m then [] else skipn (match m with Some k => k | None => 0%nat end) body) in
+           match rdf_dispatch A build_mol build_rxn body with
+           | Err e => inr (Py e)
+           | Ok x => inl (x, meta)
+           end
+    end.
+
+  (* the records of a file after the first $RFMT/$MFMT line: the first body, then (format line, body) pairs *)
+  Definition rdf_tail (recs : list (str * list str)) : list str := concat (map (fun fb => fst fb :: snd fb) recs).
+  Definition rdf_rest (recs : list (str * list str)) : list str :=
+    match recs with [] => [] | fb :: r => snd fb ++ rdf_tail r end.
+
+  Lemma is_fmt_not_dtype l : is_fmt l = true -> is_dtype l = false.
+  Proof.
+    unfold is_fmt, is_dtype. destruct l as [|a [|b l]]; cbn; try (intros; discriminate).
+    - rewrite !andb_false_r. discriminate.
+    - destruct (Ascii.eqb "$" a); cbn; [|discriminate].
+      destruct (Ascii.eqb "D" b) eqn:E; [|reflexivity]. apply Ascii.eqb_eq in E. subst b. cbn. discriminate.
+  Qed.
+
+  Lemma rdf_block_body body : forall n buf m recs,
+    Forall (fun l => is_fmt l = false) body -> Forall (fun fb => is_fmt (fst fb) = true) recs ->
+    (n + length body < buffer_size)%nat ->
+    rdf_block buffer_size (body ++ rdf_tail recs) n false buf m = (Some (buf ++ body, mscan body (length buf) m), rdf_rest recs).
+  Proof.
+    induction body as [|l body IH]; intros n buf m recs Hb Hr Hn.
+    - cbn [app mscan]. rewrite app_nil_r. destruct recs as [|[f b] recs]; [reflexivity|].
+      inversion Hr as [|? ? Hf _]; subst. cbn [fst] in Hf.
+      unfold rdf_tail. cbn [map concat fst snd app rdf_block rdf_rest].
+      destruct (Nat.eqb n buffer_size) eqn:E; [apply Nat.eqb_eq in E; cbn [length] in Hn; lia|].
+      pose proof (is_fmt_not_dtype f Hf) as Hd. unfold is_dtype in Hd. rewrite Hd, andb_false_r, Hf. reflexivity.
+    - inversion Hb as [|? ? Hl Hb']; subst. cbn [app rdf_block]. cbn [length] in Hn.
+      destruct (Nat.eqb n buffer_size) eqn:E; [apply Nat.eqb_eq in E; lia|].
+      cbn [mscan]. unfold is_dtype.
+      destruct (falsy m && startswith (L "$DTYPE") l) eqn:Ed.
+      + rewrite IH by (try assumption; lia). rewrite <- app_assoc. cbn [app]. rewrite app_length. cbn [length]. rewrite Nat.add_1_r. reflexivity.
+      + rewrite Hl. rewrite IH by (try assumption; lia). rewrite <- app_assoc. cbn [app]. rewrite app_length. cbn [length]. rewrite Nat.add_1_r. reflexivity.
+  Qed.
+
+  (* the header of the file (everything before the first format line) is dropped by the first read *)
+  Lemma rdf_block_header header : forall n f rest,
+    Forall (fun l => is_fmt l = false /\ startswith (L "$RXN") l = false) header -> is_fmt f = true -> startswith (L "$RXN") f = false ->
+    rdf_block buffer_size (header ++ f :: rest) n true [] None = rdf_block buffer_size rest (S (n + length header)) false [] None.
+  Proof.
+    induction header as [|l header IH]; intros n f rest Hh Hf Hx.
+    - cbn [app rdf_block length]. rewrite Hx, Hf. rewrite Nat.add_0_r. reflexivity.
+    - inversion Hh as [|? ? [H1 H2] Hh']; subst. cbn [app rdf_block]. rewrite H2, H1. rewrite IH by assumption.
+      cbn [length]. f_equal. lia.
+  Qed.
+  Lemma is_fmt_not_rxn f : is_fmt f = true -> startswith (L "$RXN") f = false.
+  Proof.
+    unfold is_fmt. destruct f as [|a [|b l]]; cbn; try (intros; discriminate).
+    - rewrite !andb_false_r. discriminate.
+    - destruct (Ascii.eqb "$" a); cbn; [|discriminate].
+      destruct (Ascii.eqb "R" b) eqn:E.
+      + apply Ascii.eqb_eq in E. subst b. cbn. destruct l as [|c l]; cbn; [discriminate|].
+        destruct (Ascii.eqb "F" c) eqn:E2; [apply Ascii.eqb_eq in E2; subst c; reflexivity|]. cbn. discriminate.
+      + reflexivity.
+  Qed.
+
+  Definition rdf_body_ok (extra : nat) (body : list str) : Prop :=
+    Forall (fun l => is_fmt l = false) body /\ (extra + length body < buffer_size)%nat.
+
+  Lemma rdf_structure_next tell body recs :
+    tell <> 0%nat -> rdf_body_ok 0 body -> Forall (fun fb => is_fmt (fst fb) = true) recs ->
+    rdf_read_structure A build_mol build_rxn buffer_size tell (body ++ rdf_tail recs) = (rdf_one body, rdf_rest recs).
+  Proof.
+    intros Ht [Hb Hn] Hr. unfold rdf_read_structure.
+    replace (Nat.eqb tell 0) with false by (symmetry; apply Nat.eqb_neq; exact Ht).
+    rewrite rdf_block_body by assumption. cbn [app length]. unfold rdf_one.
+    destruct body as [|l body]; [reflexivity|]. cbv zeta.
+    destruct (rdf_dispatch A build_mol build_rxn (l :: body)); reflexivity.
+  Qed.
+  Lemma rdf_structure_first header f body recs :
+    Forall (fun l => is_fmt l = false /\ startswith (L "$RXN") l = false) header -> is_fmt f = true ->
+    rdf_body_ok (S (length header)) body -> Forall (fun fb => is_fmt (fst fb) = true) recs ->
+    rdf_read_structure A build_mol build_rxn buffer_size 0 (header ++ f :: body ++ rdf_tail recs) = (rdf_one body, rdf_rest recs).
+  Proof.
+    intros Hh Hf [Hb Hn] Hr. unfold rdf_read_structure. cbn [Nat.eqb].
+    rewrite rdf_block_header by (try assumption; apply is_fmt_not_rxn; exact Hf).
+    rewrite rdf_block_body by (try assumption; lia). cbn [app length]. unfold rdf_one.
+    destruct body as [|l body]; [reflexivity|]. cbv zeta.
+    destruct (rdf_dispatch A build_mol build_rxn (l :: body)); reflexivity.
+  Qed.
+
+  Lemma rdf_one_not_eof body : body <> [] -> rdf_one body <> inr EOFError.
+  Proof.
+    intros H. unfold rdf_one. destruct body; [contradiction|]. cbv zeta.
+    destruct (rdf_dispatch A build_mol build_rxn (s :: body)); discriminate.
+  Qed.
+
+  Lemma rdf_iter_rest recs : forall fuel tell,
+    tell <> 0%nat ->
+    Forall (fun fb => is_fmt (fst fb) = true /\ rdf_body_ok 0 (snd fb) /\ snd fb <> []) recs ->
+    (length recs < fuel)%nat ->
+    rdf_iter A build_mol build_rxn buffer_size fuel tell (rdf_rest recs) = collect (map rdf_one (map snd recs)).
+  Proof.
+    induction recs as [|[f body] recs IH]; intros fuel tell Ht Hr Hf.
+    - destruct fuel as [|fuel]; [cbn in Hf; lia|]. cbn [rdf_rest rdf_iter map collect].
+      unfold rdf_read_structure. replace (Nat.eqb tell 0) with false by (symmetry; apply Nat.eqb_neq; exact Ht). reflexivity.
+    - inversion Hr as [|? ? [H1 [H2 H3]] Hr']; subst. cbn [fst snd] in *.
+      destruct fuel as [|fuel]; [cbn in Hf; lia|]. cbn [length] in Hf.
+      cbn [rdf_rest snd rdf_iter]. rewrite rdf_structure_next; try assumption.
+      2:{ eapply Forall_impl; [|exact Hr']. intros fb [H _]. exact H. }
+      specialize (IH fuel (S tell) ltac:(lia) Hr' ltac:(lia)).
+      cbn [map snd]. pose proof (rdf_one_not_eof body H3) as Hne.
+      destruct (rdf_one body) as [x|[e| |]]; cbn [collect].
+      + rewrite IH. reflexivity.
+      + destruct (is_value_error e); [exact IH | reflexivity].
+      + contradiction.
+      + reflexivity.
+  Qed.
+
+  (* a whole RDF file: header lines, then records = (format line, body) *)
+  Definition rdf_file (header : list str) (recs : list (str * list str)) : list str := header ++ rdf_tail recs.
+
+  (* rdf_framing: every record yields what its own lines yield; a record whose parse raises a ValueError is skipped and the
+     following ones are unaffected *)
+  Theorem rdf_framing header recs :
+    Forall (fun l => is_fmt l = false /\ startswith (L "$RXN") l = false) header ->
+    Forall (fun fb => is_fmt (fst fb) = true /\ rdf_body_ok (S (length header)) (snd fb) /\ snd fb <> []) recs ->
+    rdf_read A build_mol build_rxn buffer_size (rdf_file header recs) = collect (map rdf_one (map snd recs)).
+  Proof.
+    intros Hh Hr. unfold rdf_read, rdf_file.
+    destruct recs as [|[f body] recs].
+    - (* no record: the header is dropped and the file ends *)
+      unfold rdf_tail. cbn [map concat]. rewrite app_nil_r. cbn [rdf_iter map collect].
+      unfold rdf_read_structure. cbn [Nat.eqb].
+      assert (E : forall n, rdf_block buffer_size header n true [] None = (Some ([], None), [])).
+      { clear - Hh. induction Hh as [|l header [H1 H2] _ IH]; intros n; [reflexivity|]. cbn [rdf_block]. rewrite H2, H1. apply IH. }
+      rewrite E. reflexivity.
+    - inversion Hr as [|? ? [H1 [H2 H3]] Hr']; subst. cbn [fst snd] in *.
+      unfold rdf_tail. cbn [map concat fst snd]. fold (rdf_tail recs). cbn [rdf_iter].
+      change (header ++ (f :: body ++ rdf_tail recs)) with (header ++ f :: body ++ rdf_tail recs).
+      assert (Hr'' : Forall (fun fb : str * list str => is_fmt (fst fb) = true /\ rdf_body_ok 0 (snd fb) /\ snd fb <> []) recs).
+      { eapply Forall_impl; [|exact Hr']. intros fb [Ha [[Hb Hc] Hd]]. repeat split; try assumption. lia. }
+      rewrite rdf_structure_first; try assumption.
+      2:{ eapply Forall_impl; [|exact Hr']. intros fb [H _]. exact H. }
+      assert (IH : rdf_iter A build_mol build_rxn buffer_size (length (header ++ f :: body ++ rdf_tail recs)) 1 (rdf_rest recs) =
+                   collect (map rdf_one (map snd recs))).
+      { apply rdf_iter_rest; [lia | exact Hr'' |]. rewrite !app_length. cbn [length]. rewrite app_length.
+        assert (length recs <= length (rdf_tail recs))%nat.
+        { clear. unfold rdf_tail. induction recs as [|[a b] recs IH]; cbn [map concat length fst snd]; [lia|]. rewrite app_length. lia. }
+        lia. }
+      cbn [map snd]. pose proof (rdf_one_not_eof body H3) as Hne.
+      destruct (rdf_one body) as [x|[e| |]]; cbn [collect].
+      + rewrite IH. reflexivity.
+      + destruct (is_value_error e); [exact IH | reflexivity].
+      + contradiction.
+      + reflexivity.
+  Qed.
 End Framing.
